@@ -336,6 +336,14 @@ def compare(case, om, oi):
         return None
     if k == "touchend":
         f = oi.split(" ")
+        fm = om.split(" ")
+        if f[0] == fm[0] == "te=1:1":
+            # the binary32 model evaluates the ends to the very same floats
+            for ym, yi in zip(fm[1][2:].split(":"), f[1][2:].split(":")):
+                if parse_q(ym) != frac_of_bits(int(yi, 16)):
+                    return "end value of a straight segment: model %s, sb_poly_eval %s" % (float(parse_q(ym)), yi)
+        elif f[0] == "te=1:1":
+            return "model (binary32) of the linear touch test answers %s, implementation %s" % (fm[0], f[0])
         if f[0] != "te=1:1":
             cs = [frac_of_bits(int(x, 16)) for x in _vals(w[2])]
             ys = f[1][2:].split(":")
